@@ -1138,6 +1138,9 @@ def op_split(cx):
     _finish(cx, len(parts) > 0)
 
 
+FACELESS_OK = ("none", "vertex")
+
+
 def op_concatenate(cx):
     """params: others = list of mesh cases; route = 'concatenate' | 'add'."""
     import trimesh
@@ -1399,6 +1402,15 @@ def workload(run):
                     execute(run, T, visual, normals, "concatenate",
                             {"others": others, "route": "concatenate", "mixed_images": False,
                              "normal_modes": [normals] + ["cold"] * len(others)})
+                if visual in FACELESS_OK and normals == "cold":
+                    # an entry that has vertices but NO faces (a bare point set, a mesh whose faces
+                    # were all masked away) in front of / between entries with faces: its vertices
+                    # still count for the offsets of everything after it
+                    pts = Tagged(np.asarray(T.V)[: max(1, min(3, T.nv))] + 100.0, np.zeros((0, 3), dtype=np.int64)).to_case()
+                    for where in ("middle", "first_other"):
+                        oth = [others[0], pts] + others[1:] if where == "middle" else [pts] + others
+                        execute(run, T, visual, normals, "concatenate",
+                                {"others": oth, "route": "concatenate", "mixed_images": False})
             if run.out_of_time(0.9):
                 break
         prev.append(T)
